@@ -146,7 +146,13 @@ def correspondence(ctx):
             pre += prefixes(img, rng, limit=None if len(img.data) < 64 * G.K else (8 if ctx.quick else 30))
         elif rng.random() < (0.1 if ctx.quick else 0.4):
             pre += prefixes(img, rng, limit=4)
-    imgs = sorted(imgs + pre, key=lambda i: len(i.data) > 64 * G.K)
+    # ill-formed images too (model comparison only; the search below never uses them): size-related fields mutated
+    ill = []
+    for fmt in G.FORMATS:
+        ill += G.mutated(fmt, rng, count=(4 if fmt in ('vhdx', 'vmdk') else 8) if ctx.quick else None)
+    ill += [m for m in G.mutated('iso', rng) if 'be-halves' in m.tag]
+    ill += [m for m in G.mutated('vhdx', rng) if 'item_len' in m.tag][:3 if ctx.quick else 6]
+    imgs = sorted(imgs + pre + ill, key=lambda i: len(i.data) > 64 * G.K)
     pairs, spent = [], 0
     for img in imgs:
         n = len(img.data)
